@@ -32,8 +32,10 @@ pub struct ProxySummary {
 
 impl ProxySummary {
     pub fn to_key_string(&self) -> String {
+        // the fields are separated by NUL, which none of them can contain: with a blank as separator a process
+        // path and a command line that both contain blanks could give two different callers the same key
         format!(
-            "{} {} {} {} {} {} {}",
+            "{}\0{}\0{}\0{}\0{}\0{}\0{}",
             self.userName,
             self.clientIp,
             self.ip,
